@@ -13,9 +13,12 @@ import (
 
 // chainWorld is a node plus harness-side observers.
 type chainWorld struct {
-	u *univ.Universe
-	n *node.Node
+	u    *univ.Universe
+	n    *node.Node
+	hist []bfs.Op // only maintained by checks that need it
 }
+
+type typesChainIndex = types.ChainIndex
 
 func newChainWorld(u *univ.Universe) *chainWorld { return &chainWorld{u: u, n: node.New(u)} }
 
@@ -28,6 +31,7 @@ func (w *chainWorld) Key() [32]byte { return w.n.Key(false) }
 // re-validates that by replaying every new state's history on a fresh instance (ValidateReplay).
 func (w *chainWorld) Clone() bfs.World {
 	c := &chainWorld{u: w.u, n: node.Open(w.u, w.n.DB.CloneDB())}
+	c.hist = append([]bfs.Op(nil), w.hist...)
 	c.n.Obs.First = w.n.Obs.First // a divergence of the expiration lists taints every later state
 	return c
 }
